@@ -247,7 +247,6 @@ class History:
         self.farm = S.Farm(rig, FARMS[self.farm_idx], KEYS, IDENTS)
         farm = self.farm
         self.net = {"cfg": farm.model_cfg(), "regs": farm.model_regs(), "env": rig.env()}
-        n_closed_model = 0
         for op in ops:
             if not self.ok:
                 break
@@ -371,7 +370,6 @@ class History:
                         ctx.mismatch(self.case(), r["closed"], closed, f"{k}: closed states differ")
                         self.ok = False
                     self.compare_state(r, k, op)
-            _ = n_closed_model
 
     def why_no_grant(self, wk: int, ident: Any, eff: str) -> str:
         ms = [m for m in self.mints if m["wire"] == eff]
@@ -427,11 +425,6 @@ def gen_history(rng: Any, farm_idx: int, length: int) -> list[Any]:
             ops.append({"op": "shutdown", "wk": wk})
         else:
             ops.append({"op": "drain", "wk": wk, "b": rng.random() < 0.5})
-    return ops
-
-
-def resolve_legit(h: History, ops: list[Any], rng: Any) -> list[Any]:
-    """Second pass while running: ops marked `legit` get the (worker, identity) of the token's mint; GEN mutations are drawn."""
     return ops
 
 
@@ -626,6 +619,9 @@ def phase_histories(ctx: Any) -> None:
     n = ctx.budget(24, 400)
     length = 28 if ctx.tier == "quick" and not ctx.deep else 45
     for hidx in range(n):
+        if len(ctx.failures) >= 40 or len(ctx.mismatches) >= 40:
+            ctx.note("stopped_early", "40 failing cases collected")
+            return
         fi = hidx % len(FARMS)
         h = History(ctx, fi, f"g{hidx}")
         ops = gen_history(rng, fi, length)
